@@ -29,7 +29,7 @@ def run_witnesses(run, target, kwargs, timeout=600):
         if len(run.witness["violation_paths"]) >= 3:
             run.witness["suppressed"] = run.witness.get("suppressed", 0) + 1
             continue
-        d = os.path.join(runner.VERIF, "replays", run.pid)
+        d = os.path.join(runner.REPLAY_DIR, run.pid)
         os.makedirs(d, exist_ok=True)
         h = hashlib.sha1(json.dumps(v, sort_keys=True, default=repr).encode()).hexdigest()[:10]
         path = os.path.join(d, "witness-%s.json" % h)
